@@ -8,7 +8,15 @@ A suite module provides
 A failure is a violated *contract of the real function on a concrete input*; an exception inside the harness or an
 oracle is reported separately (`harness_errors`) and never becomes a violation.
 """
-import sys, json, time, hashlib, traceback, os
+import sys, json, time, hashlib, traceback, os, signal, resource
+
+
+class CaseTimeout(BaseException):
+    pass
+
+
+def _alarm(*a):
+    raise CaseTimeout()
 
 
 def canon(case):
@@ -22,12 +30,22 @@ def main():
     t0 = time.time(); budget = float(os.environ.get('VERIF_SHARD_BUDGET_S', '1e9'))
     res = {'suite': mod, 'shard': shard, 'cases': 0, 'evaluations': 0, 'nontrivial': [], 'failures': [], 'harness_errors': [],
            'samples': [], 'hashseed': os.environ.get('PYTHONHASHSEED', ''), 'truncated': False}
-    seen = set()
+    seen = set(); res['timeouts'] = []
+    case_budget = int(os.environ.get('VERIF_CASE_TIMEOUT_S', '90'))
+    try: resource.setrlimit(resource.RLIMIT_AS, (6 * 2 ** 30, 6 * 2 ** 30))
+    except Exception: pass
+    signal.signal(signal.SIGALRM, _alarm)
     for idx, case in enumerate(suite.cases(tier, seed)):
         if idx % nshards != shard: continue
         if time.time() - t0 > budget: res['truncated'] = True; break
         try:
-            fails, nontrivial, evals = suite.check(case)
+            signal.signal(signal.SIGALRM, _alarm); signal.alarm(case_budget)
+            try: fails, nontrivial, evals = suite.check(case)
+            finally: signal.alarm(0)
+        except (CaseTimeout, MemoryError) as ex:
+            # the case exceeded the per-case budget (inherently exponential algorithms, e.g. indexed-grammar marking): skipped and counted
+            if len(res['timeouts']) < 20: res['timeouts'].append({'case': case, 'why': type(ex).__name__})
+            continue
         except Exception:
             res['harness_errors'].append({'case': case, 'trace': traceback.format_exc()[-1200:]})
             if len(res['harness_errors']) > 5: break
